@@ -395,6 +395,11 @@ func (w *Writer) Close() error {
 // Table writer is not safe for concurrent use.
 func NewWriter(f io.Writer, o *opt.Options, pool *util.BufferPool, size int) *Writer {
 	var bufBytes []byte
+	if size < 0 {
+		// size is a hint for the initial buffer; a negative one (for example an
+		// overflowed table-size option) means no hint.
+		size = 0
+	}
 	if pool == nil {
 		bufBytes = make([]byte, size)
 	} else {
